@@ -1090,7 +1090,7 @@ def box_new(ctx):
     return Ref(c, ())
 
 
-@contract(r'^Pin::<.*>::new_unchecked$|^Pin::<.*>::new$|^Pin::<.*>::as_mut$|^Pin::<.*>::get_mut$|^Pin::<.*>::get_unchecked_mut$|^Pin::<.*>::into_inner$|^<Pin<.*> as (?:std::ops::)?Deref(?:Mut)?>::deref(?:_mut)?$|^<Box<.*> as (?:std::ops::)?Deref(?:Mut)?>::deref(?:_mut)?$|^<Arc<.*> as (?:std::ops::)?Deref>::deref$|^<Arc<.*> as AsRef<.*>>::as_ref$|^<(?:tokio::sync::|std::sync::)?(?:Owned)?(?:RwLockReadGuard|RwLockWriteGuard|MutexGuard|RwLockMappedWriteGuard)<.*> as (?:std::ops::)?Deref(?:Mut)?>::deref(?:_mut)?$|^<&mut .* as (?:std::ops::)?Deref(?:Mut)?>::deref(?:_mut)?$|^<&.* as (?:std::ops::)?Deref>::deref$|^<.* as (?:std::future::)?IntoFuture>::into_future$|^<.* as (?:std::borrow::)?Borrow(?:Mut)?<.*>>::borrow(?:_mut)?$')
+@contract(r'^Pin::<.*>::new_unchecked$|^Pin::<.*>::new$|^Pin::<.*>::as_mut$|^Pin::<.*>::get_mut$|^Pin::<.*>::get_unchecked_mut$|^Pin::<.*>::into_inner$|^<Pin<.*> as (?:std::ops::)?Deref(?:Mut)?>::deref(?:_mut)?$|^<Box<.*> as (?:std::ops::)?Deref(?:Mut)?>::deref(?:_mut)?$|^<(?:std::sync::)?Arc<.*> as (?:std::ops::)?Deref>::deref$|^<(?:std::sync::)?Arc<.*> as AsRef<.*>>::as_ref$|^<(?:std::boxed::)?Box<.*> as AsRef<.*>>::as_ref$|^<(?:tokio::sync::|std::sync::)?(?:Owned)?(?:RwLockReadGuard|RwLockWriteGuard|MutexGuard|RwLockMappedWriteGuard)<.*> as (?:std::ops::)?Deref(?:Mut)?>::deref(?:_mut)?$|^<&mut .* as (?:std::ops::)?Deref(?:Mut)?>::deref(?:_mut)?$|^<&.* as (?:std::ops::)?Deref>::deref$|^<.* as (?:std::future::)?IntoFuture>::into_future$|^<.* as (?:std::borrow::)?Borrow(?:Mut)?<.*>>::borrow(?:_mut)?$')
 def pointer_identity(ctx):
     a = ctx.args[0]
     if isinstance(a, Ref):
@@ -1342,6 +1342,13 @@ def str_parse_literal(ctx):
             return mk_result(ex, ok=Agg('TargetAddress', {}, vn.index('SocketAddr'), {vn.index('SocketAddr'): {0: sa}}, vn))
         okv = ctx.ex.fresh(ctx.st, ty, 'parsed')
         return mk_result(ctx.ex, ok=okv)
+    # non-constant text parsed into an integer type: any value of that type, or a parse error
+    h, a = generic_args((ctx.dest_ty or '').strip())
+    if a and a[0].strip() in INT_TYPES:
+        ex, st = ctx.ex, ctx.st
+        d = z3.BitVec(fresh_name('parse_fails'), 64)
+        ex.assume(st, z3.ULT(d, BV(2, 64)))
+        return Agg('Result', {}, d, {0: {0: ex.fresh(st, a[0].strip(), 'parsed')}, 1: {0: Opaque('ParseIntError', 'parse')}}, ex.si.enums['Result'])
     return NotImplemented
 
 
